@@ -667,8 +667,12 @@ func LoopSkipConds(info *types.Info, body *ast.BlockStmt) []string {
 		return nil
 	}
 	set := map[string]bool{}
+	lastOfLoop := map[ast.Stmt]bool{}
 	var visit func(n ast.Node, inLoop bool)
 	visit = func(n ast.Node, inLoop bool) {
+		if b, ok := n.(*ast.BlockStmt); ok && inLoop && len(b.List) > 0 {
+			lastOfLoop[b.List[len(b.List)-1]] = true
+		}
 		ast.Inspect(n, func(m ast.Node) bool {
 			if m == nil || m == n {
 				return true
@@ -687,6 +691,10 @@ func LoopSkipConds(info *types.Info, body *ast.BlockStmt) []string {
 				if inLoop {
 					c := NormCond(info, x.Cond)
 					els, _ := x.Else.(*ast.BlockStmt)
+					if lastOfLoop[x] && x.Else == nil {
+						// the last statement of the loop body: `if c { S }` and `if !c { continue }; S` are the same loop
+						set[c], set[NegCond(c)] = true, true
+					}
 					switch {
 					case endsWithJump(x.Body):
 						set[c] = true
